@@ -1,16 +1,16 @@
 // Kani harnesses attached (under cfg(kani)) to src/range.rs of a scratch copy of /repo.  K1: the REAL `parse` (real
-// split / find / trim_start_matches / slicing on `str`) on concrete header templates, with `u64::from_str` stubbed so that
+// split / find / trim_matches / slicing on `str`) on concrete header templates, with `parse_pos` stubbed so that
 // every number in the header is an unconstrained u64 (or unparseable).  Complete for each template shape; the set of
-// shapes is the bound.
+// shapes is the bound.  K1p: the REAL `parse_pos` (digit loop, `is_ascii_digit`, saturating arithmetic) on every ASCII
+// string of at most 4 bytes and on 20..=22-digit strings around 2^64 (bounded), against 128-bit reference arithmetic.
 #![allow(dead_code, static_mut_refs)]
-use super::{parse, ResolvedRanges};
+use super::{parse, parse_pos, ResolvedRanges};
 use http::header::HeaderValue;
-use std::str::FromStr;
 
 static mut NUMS: [Option<u64>; 4] = [None; 4];
 static mut NEXT: usize = 0;
 
-fn stub_from_str(_s: &str) -> Result<u64, std::num::ParseIntError> {
+fn stub_parse_pos(_s: &str) -> Option<u64> {
     let ok: bool = kani::any();
     let v: u64 = kani::any();
     unsafe {
@@ -18,9 +18,9 @@ fn stub_from_str(_s: &str) -> Result<u64, std::num::ParseIntError> {
         NEXT += 1;
     }
     if ok {
-        Ok(v)
+        Some(v)
     } else {
-        u64::from_str_radix("x", 10)
+        None
     }
 }
 
@@ -93,27 +93,27 @@ fn check(template: &'static str, forms: &[Form]) {
 
 #[kani::proof]
 #[kani::unwind(12)]
-#[kani::stub(<u64 as FromStr>::from_str, stub_from_str)]
+#[kani::stub(parse_pos, stub_parse_pos)]
 fn k1_closed() { check("bytes=1-2", &[Form::Closed]); }
 
 #[kani::proof]
 #[kani::unwind(12)]
-#[kani::stub(<u64 as FromStr>::from_str, stub_from_str)]
+#[kani::stub(parse_pos, stub_parse_pos)]
 fn k1_from() { check("bytes=1-", &[Form::From]); }
 
 #[kani::proof]
 #[kani::unwind(12)]
-#[kani::stub(<u64 as FromStr>::from_str, stub_from_str)]
+#[kani::stub(parse_pos, stub_parse_pos)]
 fn k1_suffix() { check("bytes=-1", &[Form::Suffix]); }
 
 #[kani::proof]
 #[kani::unwind(16)]
-#[kani::stub(<u64 as FromStr>::from_str, stub_from_str)]
+#[kani::stub(parse_pos, stub_parse_pos)]
 fn k1_two_ows() { check("bytes=1-2, \t-3", &[Form::Closed, Form::Suffix]); }
 
 #[kani::proof]
 #[kani::unwind(12)]
-#[kani::stub(<u64 as FromStr>::from_str, stub_from_str)]
+#[kani::stub(parse_pos, stub_parse_pos)]
 fn k1_other_unit() {
     let len: u64 = kani::any();
     let hv = HeaderValue::from_static("items=1-2");
@@ -124,18 +124,17 @@ fn k1_other_unit() {
 
 #[kani::proof]
 #[kani::unwind(12)]
-#[kani::stub(<u64 as FromStr>::from_str, stub_from_str)]
+#[kani::stub(parse_pos, stub_parse_pos)]
 fn k1_leading_ows() { check("bytes= \t1-2", &[Form::Closed]); }
 
 #[kani::proof]
 #[kani::unwind(16)]
-#[kani::stub(<u64 as FromStr>::from_str, stub_from_str)]
+#[kani::stub(parse_pos, stub_parse_pos)]
 fn k1_two_from() { check("bytes=1-,2-3", &[Form::From, Form::Closed]); }
 
-/// Positions are `1*DIGIT`: a sign makes the header ungrammatical, so it is ignored (u64::from_str alone would accept `+1`).
+/// Positions are `1*DIGIT`: a sign makes the header ungrammatical, so it is ignored (`u64::from_str` would accept `+1`); REAL parse_pos.
 #[kani::proof]
 #[kani::unwind(16)]
-#[kani::stub(<u64 as FromStr>::from_str, stub_from_str)]
 fn k1_signed_positions() {
     let len: u64 = kani::any();
     let hv = HeaderValue::from_static("bytes=+1-2");
@@ -144,4 +143,50 @@ fn k1_signed_positions() {
     assert!(parse(Some(&hv), len) == ResolvedRanges::None);
     let hv = HeaderValue::from_static("bytes=-+2");
     assert!(parse(Some(&hv), len) == ResolvedRanges::None);
+}
+
+/// OWS before the comma is part of the list grammar (RFC 7230 7: `element *( OWS "," OWS element )`).
+#[kani::proof]
+#[kani::unwind(20)]
+#[kani::stub(parse_pos, stub_parse_pos)]
+fn k1_ows_before_comma() { check("bytes=1-2 \t, -3", &[Form::Closed, Form::Suffix]); }
+
+/// Reference: `1*DIGIT` of any length, saturating at u64::MAX (128-bit arithmetic; at most 22 digits here).
+fn ref_pos(b: &[u8]) -> Option<u64> {
+    if b.is_empty() { return None; }
+    let mut v: u128 = 0;
+    let mut i = 0;
+    while i < b.len() {
+        if b[i] < b'0' || b[i] > b'9' { return None; }
+        v = v * 10 + (b[i] - b'0') as u128;
+        i += 1;
+    }
+    Some(if v > u64::MAX as u128 { u64::MAX } else { v as u64 })
+}
+
+#[kani::proof]
+#[kani::unwind(6)]
+fn k1p_parse_pos_ascii_len_le_4() {
+    let bytes: [u8; 4] = kani::any();
+    let n: usize = kani::any();
+    kani::assume(n <= 4);
+    let mut i = 0;
+    while i < 4 { kani::assume(bytes[i] < 0x80); i += 1; }
+    let s = unsafe { std::str::from_utf8_unchecked(&bytes[..n]) };
+    assert!(parse_pos(s) == ref_pos(&bytes[..n]));
+}
+
+/// 20 digits: the values around 2^64 = 18446744073709551616 (every last digit), saturation must be exact.
+#[kani::proof]
+#[kani::unwind(24)]
+fn k1p_parse_pos_around_2_64() {
+    let mut bytes = *b"18446744073709551610";
+    let d: u8 = kani::any();
+    kani::assume(d <= 9);
+    bytes[19] = b'0' + d;
+    let s = unsafe { std::str::from_utf8_unchecked(&bytes[..]) };
+    let exp = if d <= 5 { 18446744073709551610u64 + d as u64 } else { u64::MAX };
+    assert!(parse_pos(s) == Some(exp));
+    let big = "99999999999999999999999";
+    assert!(parse_pos(big) == Some(u64::MAX));
 }
